@@ -45,6 +45,9 @@ def run(prog, R, tier="quick", only_rule=None):
     c06.c06c(prog, R, rid="C17.e2")
     # snapshots taken before the compaction keep resolving against the version they pinned (also the blob side of a scan)
     c02.c02d(prog, R, rid="C17.e3")
+    # "absent for Remove": the tombstone a Remove verdict writes must survive until the last level
+    from rules.props import c01
+    c01.c01c(prog, R, rid="C17.f")
 
 
 def c17a(prog, R):
